@@ -41,8 +41,9 @@ MANIFEST = {
             '(readexactly_chunk_independent), read(-1)/read(n) (read_all_to_eof, read_n_prefix), readuntil/readline '
             'return the shortest prefix ending in a separator with the search-window arithmetic proved not to skip a '
             'separator spanning a chunk boundary (readuntil_window_never_skips, readuntil_single_sep, '
-            'readuntil_multi_sep_partial under "no separator strictly inside another", with the machine-checked '
-            'negation witness of the unrestricted statement = defect F10); for EVERY ordering of data/EOF/exit-status/'
+            'readuntil_multi_sep for EVERY separator list, readuntil_multi_sep_chunk_independent, '
+            'readuntil_regex_alternation_partial under "no separator strictly inside another", with the machine-checked '
+            'witness that the code before the repair of F10 depended on the chunking); for EVERY ordering of data/EOF/exit-status/'
             'CLOSE, loop turn, wait()/redirect moment and pause limit, wait() returns everything sent before CLOSE '
             '(exit_with_complete_output_partial, hypothesis: channel not torn down by a connection loss, with negation '
             'witness = finding F33); redirect targets get all data and write_eof exactly once (redirect_copies_all, '
@@ -375,9 +376,11 @@ def spec_results(data: bytes, ops: Sequence[Tuple], actual: Sequence[str]) -> Tu
             k = G.first_end(seps, rem)
             if k is None:
                 e, rem = 'inc:' + hx(rem), b''
-            elif len(seps) > 1 and not G.infix_free(seps):
-                # a separator inside another one: "the first match" is ambiguous; any prefix ending in a separator
-                # is accepted here, and the deliveries are compared with each other instead (defect F10)
+            elif t[0] == 'P' and len(seps) > 1 and not G.infix_free(seps):
+                # the caller's own regex with one alternative inside another: "the first match" is what the regex
+                # engine says (leftmost start) on the buffer as it stands; any prefix ending in a separator is
+                # accepted (documented caveat).  A separator LIST has no such freedom: the shortest prefix ending in
+                # a separator, whatever the chunking (defect F10 when it is not)
                 got = unhx(act[3:]) if act.startswith('ok:') else None
                 if got is not None and rem.startswith(got) and any(got.endswith(x) for x in seps):
                     e, rem = act, rem[len(got):]
@@ -416,7 +419,8 @@ def gen_spec_case(rng: Any, small: bool = False) -> Tuple[bytes, List[Tuple]]:
             ops.append(('U', G.gen_seps(rng, rest, 'multi')))
         elif r < 0.93:
             seps = G.gen_seps(rng, rest, rng.choice(['single', 'multi']))
-            ops.append(('P', max(len(s) for s in seps), seps))
+            # max_separator_len: exact, generous, or the default 0 (= search the whole buffer every time)
+            ops.append(('P', rng.choice([max(len(s) for s in seps), 0, 0, max(len(s) for s in seps) + 2]), seps))
         else:
             ops.append(('U', G.gen_seps(rng, rest, 'infix')))
     return data, ops
@@ -461,7 +465,7 @@ def make_delivery(rng: Any, chunks: List[bytes], ops: Sequence[Tuple]) -> List[T
 def classify_spec_failure(ops: Sequence[Tuple], idx: int) -> str:
     t = ops[idx]
     seps = seps_of(t)
-    if seps is not None and len(seps) > 1 and not G.infix_free(seps):
+    if t[0] == 'U' and seps is not None and len(seps) > 1 and not G.infix_free(seps):
         return SIG_F10
     kind = {'X': 'readexactly', 'R': 'read', 'L': 'readline', 'V': 'readuntil-single-sep', 'U': 'readuntil-multi-sep',
             'P': 'readuntil-regex'}[t[0]]
@@ -506,7 +510,7 @@ async def eval_spec_case(data: bytes, ops: Sequence[Tuple], deliveries: Sequence
             bad.append((d, actual, exp + ['connection still open'], len(ops) - 1,
                         'stream-read:connection-closed-although-the-peer-kept-to-the-window'))
     # chunking dependence for the ambiguous separator lists
-    amb = [i for i, t in enumerate(ops) if seps_of(t) and len(seps_of(t)) > 1 and not G.infix_free(seps_of(t))]
+    amb = [i for i, t in enumerate(ops) if t[0] == 'U' and len(seps_of(t)) > 1 and not G.infix_free(seps_of(t))]
     if amb and runs:
         i0 = amb[0]
         d0, a0 = runs[0]
@@ -565,6 +569,7 @@ SPEC_CORPUS = [(b'ab\r\ncd', [('V', b'\r\n'), ('R', -1)]), (b'aaab', [('V', b'aa
                (b'0123456789', [('X', 20), ('X', 1)]), (b'ab', [('U', [b'\n', b'\r\n'])]),
                (b'ab\r\ncd', [('U', [b'\n', b'\r\n']), ('R', 1), ('R', -1)]), (b'', [('R', -1), ('X', 1), ('L',)]),
                (b'aXbXXc', [('P', 2, [b'XX'])]), (b'abcabc', [('R', 4), ('X', 2)]),
+               (b'aXbXXc', [('P', 0, [b'XX'])]), (b'ab\ncd', [('P', 0, [b'\n']), ('R', -1)]),
                (b'xxxxxxxxxxtail-begin-tail-end\nrest', [('X', 5), ('L',), ('R', -1)]),
                (b'0123456789abcdef;gh', [('X', 10), ('V', b';'), ('X', 2)])]
 
@@ -581,7 +586,7 @@ def oracle_spec(ctx: Ctx, res: OracleResult, hist: Hist) -> None:
             ops = []
             for t in toks:
                 sp = seps_of(t)
-                if t[0] in 'XRL' or (sp and all(sp) and not (t[0] == 'P' and t[1] < max(len(x) for x in sp))):
+                if t[0] in 'XRL' or (sp and all(sp) and not (t[0] == 'P' and 0 < t[1] < max(len(x) for x in sp))):
                     ops.append(t)
             if ops:
                 cases.append((data, ops, G.all_chunkings(data) if 0 < len(data) <= 7 else None))
